@@ -260,6 +260,9 @@ structure Fn where
   /-- the function evaluates `ssa:deferstack()` at entry (it contains a range-over-func body that defers):
       `getDeferInCurrentBlock` sets the frame up right there -/
   entryFrame : Bool := false
+  /-- go/ssa emitted no `RunDefers` before the function's `return` (its only defers are in range-over-func bodies) and
+      `cl/compile.go` adds one (`returnNeedsImplicitRunDefers`) AFTER the results were evaluated -/
+  implicitRun : Bool := false
   deriving DecidableEq, Repr, Inhabited
 
 structure Prog where
@@ -318,6 +321,7 @@ inductive Flag
   | drainOrder         -- calls of a frame were not made in LIFO order of the executed defers (loop drain crossed a node-less defer)
   | staleFrame         -- a `siglongjmp` targeted a frame that is no longer on the stack
   | regResult          -- (-O2) a named result kept in a register reverted to its value at `sigsetjmp`
+  | resultBeforeRun    -- the results of a `return` were read before the implicit `RunDefers` ran a closure that changed them
   | recoverIndirect    -- spec: `recover()` not called directly by a deferred function while a panic is in flight
   | nestedRecover      -- spec: a panic was recovered while an older panic is still in flight
   deriving DecidableEq, Repr
@@ -515,6 +519,7 @@ def finish (cfg : Cfg) (callFn : CallFn) (f : Fn) (a : Act) (st : MSt) (be : Bod
     | none => (st, .ret (st.loc a.id).r)
     | some fr =>
       let landed := match be with | .landed => true | _ => false
+      let r0 := (st.loc a.id).r      -- operands of `Return`, evaluated before an implicit `RunDefers`
       let (u, fin) := unwind f.stmts (execCall cfg callFn f a) fr st landed
       let st := orderFlag a u.log u.st
       match fin with
@@ -525,6 +530,8 @@ def finish (cfg : Cfg) (callFn : CallFn) (f : Fn) (a : Act) (st : MSt) (be : Bod
           match rethrowSt cfg a.link st with
           | (st, some e) => (st, .esc e)
           | (st, none) => (st, .ret (st.loc a.id).r)        -- Rethrow returned: `recov` block loads the named results
+        else if f.implicitRun then
+          (if r0 == (st.loc a.id).r then st else st.flag .resultBeforeRun, .ret r0)
         else (st, .ret (st.loc a.id).r)
       | .landedLast =>
         -- `rethrowBlk` entered through `Reth`: no `SetThreadDefer(link)` on this path
